@@ -126,6 +126,10 @@ class ProcessWorker(Worker):
                     self._result = self._comms.parent_end.get()
                 except queue.Empty:
                     break
+                except Exception:
+                    # the child reported something which cannot be rebuilt on this side
+                    logger.exception('Could not receive the result of {}', self)
+                    self._result = None
 
             if self._result is None:
                 self._result = (False, None)
